@@ -399,10 +399,11 @@ class ObjectDomain(LazyGenerators, EffectDomain):
                 g, s_ = c.properties[name]
                 g = self._method(c, g.id) if isinstance(g, ast.Name) else g
                 s_ = self._method(c, s_.id) if isinstance(s_, ast.Name) else s_
+                setter = s_ if isinstance(s_, FUNC_TYPES) else ("made", c, s_, None) if isinstance(s_, (ast.Call, ast.Lambda, ast.Attribute)) else None
                 if isinstance(g, FUNC_TYPES):
-                    return g, (s_ if isinstance(s_, FUNC_TYPES) else None)
+                    return g, setter
                 if isinstance(g, (ast.Call, ast.Lambda, ast.Attribute)):
-                    return ("made", c, g, None), (s_ if isinstance(s_, FUNC_TYPES) else None)
+                    return ("made", c, g, None), setter
                 return None
             if name in c.methods or name in c.attrs:
                 return None
@@ -437,12 +438,21 @@ class ObjectDomain(LazyGenerators, EffectDomain):
             return st.set(f"inst.{obj[1]}.{name}", value)
         if prop[1] is None:
             raise Undecided(f"{obj[2].name}.{name} is a property without a setter and is assigned to")
-        params = [a.arg for a in prop[1].args.args]
-        outs = self.run_function(interp, prop[1], {params[1]: value}, st, fr, receiver=obj[2], self_value=obj) if len(params) == 2 else []
+        outs = self._run_setter(interp, obj, prop[1], value, st, fr)
         done = [r for r in outs if r.kind == "val"]
         if len(outs) != 1 or len(done) != 1:
             raise Undecided(f"the setter of {obj[2].name}.{name} does not simply return ({[(r.kind, r.value) for r in outs][:3]})")
         return done[0].state
+
+    def _run_setter(self, interp, obj, setter, value, st, fr):
+        """The setter of a property -- a def, or what an expression of the class body (a partial, a lambda ...) evaluates to -- called with (obj, value)."""
+        if isinstance(setter, FUNC_TYPES):
+            params = [a.arg for a in setter.args.args]
+            return self.run_function(interp, setter, {params[1]: value}, st, fr, receiver=obj[2], self_value=obj) if len(params) == 2 else []
+        out = []
+        for r in self._eval_class_expr(interp, setter[1], setter[2], st, fr):
+            out.extend([r] if r.kind == "exc" else self.apply(interp, r.value, [obj, value], [], r.state, fr))
+        return out
 
     def assign_attribute(self, interp, target, value, st, fr):
         """obj.name = value where the class of obj declares ``name`` as a property: the setter runs (None: a plain attribute)."""
@@ -464,10 +474,9 @@ class ObjectDomain(LazyGenerators, EffectDomain):
             return None
         if prop[1] is None:
             raise Undecided(f"{obj[2].name}.{target.attr} is a property without a setter and is assigned to")
-        params = [a.arg for a in prop[1].args.args]
-        if len(params) != 2:
+        if isinstance(prop[1], FUNC_TYPES) and len(prop[1].args.args) != 2:
             return None
-        outs = self.run_function(interp, prop[1], {params[1]: value}, st, fr, receiver=obj[2], self_value=obj)
+        outs = self._run_setter(interp, obj, prop[1], value, st, fr)
         done = [r for r in outs if r.kind == "val"]
         if len(outs) != 1 or len(done) != 1:
             raise Undecided(f"the setter of {obj[2].name}.{target.attr} does not simply return ({[(r.kind, r.value) for r in outs][:3]})")
@@ -564,6 +573,8 @@ class ObjectDomain(LazyGenerators, EffectDomain):
         """``<value>.attr`` for the objects of this model (None: not one of them)."""
         if attr == "append" and is_handle(value) and isinstance(st.get(heap_key(value), None), tuple) and st.get(heap_key(value))[:1] == ("tuple",):
             return [val(("listappend", heap_key(value)), st)]   # <a list some object keeps>.append taken as a value: bound to that very list
+        if isinstance(value, tuple) and value[:1] == ("const",) and isinstance(value[1], (str, bytes)) and (attr in self.PURE_STR_METHODS or attr in ("format", "join")):
+            return [val(("partial", ("strmethod", attr), (value,), ()), st)]   # "text".method taken as a value: bound to that text
         if attr == "__dict__" and (is_inst(value) or value == ("self",)):
             prefix = f"inst.{value[1]}." if is_inst(value) else "self."
             items = sorted((k[len(prefix):], v) for k, v in st.items if k.startswith(prefix) and "." not in k[len(prefix):] and not (k[len(prefix):].startswith("__") and k[len(prefix):].endswith("__")))
@@ -638,8 +649,31 @@ class ObjectDomain(LazyGenerators, EffectDomain):
     _LITERAL_NODES = (ast.Dict, ast.Tuple, ast.List, ast.Set)
     _PURE_CONSTRUCTORS = ("attrgetter", "itemgetter", "methodcaller", "partial", "frozenset", "tuple")
 
+    _PURE_CALLS = ("attrgetter", "itemgetter", "methodcaller", "partial", "frozenset", "tuple", "list", "dict", "set", "map", "zip", "sorted", "reversed", "enumerate", "range", "chain", "namedtuple")
+
+    @classmethod
+    def _pure_expression(cls, expr, depth=0):
+        """An expression whose value depends on nothing that changes: literals, names of the module, displays and calls of
+        value-building library functions over such expressions (tuple(map(attrgetter, ("a", "b"))) ...)."""
+        if depth > 8:
+            return False
+        if isinstance(expr, (ast.Constant, ast.Name, ast.Lambda)):
+            return True
+        if isinstance(expr, ast.Attribute):
+            return dotted(expr) is not None
+        if isinstance(expr, (ast.Tuple, ast.List, ast.Set)):
+            return all(cls._pure_expression(x.value if isinstance(x, ast.Starred) else x, depth + 1) for x in expr.elts)
+        if isinstance(expr, ast.Dict):
+            return all(k is not None and cls._pure_expression(k, depth + 1) for k in expr.keys) and all(cls._pure_expression(v, depth + 1) for v in expr.values)
+        if isinstance(expr, ast.Call):
+            return (dotted(expr.func) or "").split(".")[-1] in cls._PURE_CALLS and all(cls._pure_expression(a.value if isinstance(a, ast.Starred) else a, depth + 1) for a in expr.args) \
+                and all(k.arg is not None and cls._pure_expression(k.value, depth + 1) for k in expr.keywords)
+        return False
+
     @classmethod
     def _pure_constructor(cls, expr):
+        if isinstance(expr, ast.Call) and cls._pure_expression(expr):
+            return True
         return isinstance(expr, ast.Call) and (dotted(expr.func) or "").split(".")[-1] in cls._PURE_CONSTRUCTORS and all(
             isinstance(a, (ast.Constant, ast.Name, ast.Attribute, ast.Tuple, ast.List)) for a in expr.args) and all(k.arg is not None and isinstance(k.value, (ast.Constant, ast.Name, ast.Attribute)) for k in expr.keywords)
 
@@ -820,6 +854,8 @@ class ObjectDomain(LazyGenerators, EffectDomain):
                 return ("classref", ci)
             if self._is_exception_class(chain[0], fr):
                 return ("excclass", chain[0])
+            if chain[0] in self.IMPORTED_BY_NAME and self._imports_name(fr, chain[0]):
+                return ("builtin", chain[0])   # from operator import attrgetter ...: the library function, handed around as a value
         return None
 
     def _is_method_value(self, d):
@@ -834,6 +870,15 @@ class ObjectDomain(LazyGenerators, EffectDomain):
                                 "operator.attrgetter", "operator.itemgetter", "operator.methodcaller", "operator.is_", "operator.is_not", "operator.not_", "operator.eq",
                                 "operator.ne", "operator.contains", "operator.truth", "operator.getitem", "operator.add", "operator.or_", "operator.and_", "operator.call", "operator.lt", "operator.gt", "operator.le", "operator.ge", "operator.sub",
                                 "sys.exc_info", "sys.exception", "copy.copy", "copy.deepcopy"})
+    IMPORTED_BY_NAME = frozenset({"attrgetter", "itemgetter", "methodcaller", "partial", "reduce", "chain", "count", "repeat", "filterfalse", "dropwhile", "takewhile", "islice",
+                                  "accumulate", "starmap", "contains", "is_", "is_not", "not_"})
+
+    @staticmethod
+    def _imports_name(fr, name):
+        tree = getattr(getattr(fr.func, "_module", None), "tree", None)
+        return tree is not None and any(isinstance(s_, ast.ImportFrom) and s_.module in ("operator", "functools", "itertools") and any((a_.asname or a_.name) == name for a_ in s_.names)
+                                        for s_ in tree.body)
+
     _by_name_cache = {}
     OPERATOR_EXPR = {"operator.contains": (2, "{1} in {0}"), "operator.is_": (2, "{0} is {1}"), "operator.is_not": (2, "{0} is not {1}"), "operator.not_": (1, "not {0}"),
                      "operator.eq": (2, "{0} == {1}"), "operator.ne": (2, "{0} != {1}"), "operator.truth": (1, "bool({0})"), "operator.getitem": (2, "{0}[{1}]"),
@@ -956,6 +1001,8 @@ class ObjectDomain(LazyGenerators, EffectDomain):
     def _attr_builtin(self, interp, which, pos, st, fr):
         """getattr / setattr / delattr / hasattr called through a value (handed around as functions)."""
         if which == "setattr" and len(pos) == 3 and isinstance(pos[1], tuple) and pos[1][:1] == ("const",) and isinstance(pos[1][1], str):
+            if is_inst(pos[0]) and interp is not None:
+                return [val(NONE, self.set_attribute_value(interp, pos[0], pos[1][1], pos[2], st, fr))]   # (a property's setter runs)
             s2 = self.store_attr_on(pos[0], pos[1][1], pos[2], st, fr)
             return [val(NONE, s2)] if s2 is not None else None
         if which == "delattr" and len(pos) == 2:
@@ -1269,7 +1316,7 @@ class ObjectDomain(LazyGenerators, EffectDomain):
         """Call the abstract callable ``fn`` with abstract arguments -> list of Result."""
         pos, kw = list(pos), list(kw)
         tag = fn[0] if isinstance(fn, tuple) and fn else None
-        if tag not in ("func", "boundmethod", "classref", "partial", "method", "inst") and not (tag in ("builtin", "pytype") and (fn[1] == "<consume>" or fn[1] in self.CALLED_BY_NAME)):
+        if tag not in ("func", "boundmethod", "classref", "partial", "method", "inst") and not (tag in ("builtin", "pytype") and (fn[1] == "<consume>" or fn[1] in self.CALLED_BY_NAME or fn[1] in self.IMPORTED_BY_NAME)):
             # not a callable of the repository whose body will run: it receives (and the log records) what the lists / dicts hold now
             pos = [unbox_deep(v, st) for v in pos]
             kw = [(k, unbox_deep(v, st)) for k, v in kw]
@@ -1300,7 +1347,7 @@ class ObjectDomain(LazyGenerators, EffectDomain):
             if fn[1] == "NoneType" and not pos and not kw:
                 return [val(NONE, st)]
             return self.apply(interp, ("builtin", fn[1]), pos, kw, st, fr)   # type(<a constant>) called: that builtin type
-        if tag == "builtin" and fn[1] in self.CALLED_BY_NAME:
+        if tag == "builtin" and (fn[1] in self.CALLED_BY_NAME or fn[1] in self.IMPORTED_BY_NAME):
             got = self.call_by_name(interp, fn[1], pos, kw, st, fr)
             return got if got is not None else [val(TOP, st)]
         if tag == "builtin" and len(pos) <= 1:
